@@ -189,7 +189,8 @@ Example C06_host_demo :
     map (fun fs => (fst fs, map pi_val (snd fs))) (all_spec_sends outs) = [(0, [1; 7]); (1, [1; 7])].
 Proof. eexists. eexists. split; vm_compute; reflexivity. Qed.
 
-(* HOST AND SPECTATOR TOGETHER (coq/SessionSystem.v).  A host (rollback mode, either saving mode) runs ANY operation
+(* HOST AND SPECTATOR TOGETHER (coq/SessionSystem.v).  A host (rollback mode with either saving mode, or lockstep:
+   [mode_ok]) runs ANY operation
    sequence of C01's space with at least one spectator attached; a spectator runs ANY sequence of arriving frames and
    advance_frame calls (any pauses, any catch-up settings).  The one assumption is the link contract
    [spectator_got_prefix]: the frames that reached the spectator are, in order, the first so-many frames the host
@@ -202,7 +203,7 @@ Theorem C06_spectator_replays_host :
   forall (predict : Z -> Z), (forall x, predict (predict x) = predict x) -> predict 0 = 0 ->
   forall (sparse : bool) (ops : list sop) (n w d : Z) (kinds : list pkind) (eps : list (list Z)) (nspec : nat)
          (p : p2p) (outs : list (pout * apires)) (mfb cs : Z) (opsS : list sp_hop),
-  1 <= w -> 0 <= d -> w + d + 3 <= INPUT_QUEUE_LENGTH -> 0 < n -> Z.of_nat (length kinds) = n -> players_only kinds -> (0 < nspec)%nat ->
+  SessionSystem.mode_ok sparse w d -> 0 <= d -> 0 < n -> Z.of_nat (length kinds) = n -> players_only kinds -> (0 < nspec)%nat ->
   srun_in predict (session_start n w sparse d kinds eps nspec) ops = Ok (p, outs) ->
   sp_wf n opsS -> sp_hlen (sp_hist opsS) < 2 ^ 31 ->
   SessionSystem.spectator_got_prefix outs opsS ->
